@@ -140,3 +140,61 @@ def check(ctx):
     from .c19 import check_delegation
 
     check_delegation(ctx, "C12-f", only={"oil_FVF", "oil_viscosity", "pressure_bubblepoint"})
+
+    # ---- C12-g ordering clauses decided by sign (the numerical margin is proved by interval branch and bound over a
+    # declared range; the Spivey compressibility itself is an opaque positive quantity here - its positivity is not decided)
+    from .. import signs
+    from ..values import Num as _Num
+
+    SP, BOB, RQ = OIL + "oil_compressibility_undersat_Spivey", OIL + "b_o_bubblepoint_Standing", OIL + "solution_gor_Standing"
+    fb = P.func(OIL + "b_o_Standing")
+    ups = [p for p in returns(run(ctx, OIL + "b_o_Standing", opaque={PBQ, SP, BOB})) if p.decisions and p.decisions[-1][1]]
+    n_g = 0
+    for p in ups:
+        v = p.value.nf if isinstance(p.value, _Num) else {}
+        bob = [a for a in nf.atoms(v) if a[0] == "fn" and a[1] == BOB]
+        x = nf.log(nf.div(v, nf.atom_poly(bob[0]))) if len(set(bob)) == 1 else None
+        ok = False
+        shown = ""
+        if x is not None and not nf.fn_atoms(x, "log"):
+            # x is the exponent of Bo / Bo_b; above the bubble point (pressure = p_b + d, d > 0) it must be negative
+            d = nf.sym("@d")
+            xs = nf.subst_sym(x, {"pressure": nf.add(pb_atom, d)})
+            shown = nf.show(xs, 300)
+            ok = positive(nf.neg(xs), pos_fns={SP, PBQ, BOB})
+        n_g += 1
+        ctx.check(
+            ok, "C12-g", OIL + "b_o_Standing:falls above the bubble point", fb.where(),
+            "above the bubble point Bo / Bo_b == exp(x) with x < 0 for a positive undersaturated compressibility (Bo does not exceed its bubble-point value: it falls above p_b)",
+            signature="sign of the undersaturated exponent", exponent_at_pb_plus_d=shown,
+        )
+    OIL_BOX = {"api_gravity": (10.0, 55.0), "temperature": (60.0, 350.0), "@Rs": (0.0, 3000.0)}
+    ctx.assume("declared range for the oil viscosity clauses: " + ", ".join(f"{k} in {v}" for k, v in OIL_BOX.items()) + " (API, deg F, scf/bbl)")
+    fvis = P.func(OIL + "viscosity_beggs_robinson")
+    UP_BOX = dict(OIL_BOX, **{"pressure": (14.7, 20000.0), "@pb": (14.7, 10000.0), "solution_gor_initial": (0.0, 3000.0)})
+    vp = returns(run(ctx, OIL + "viscosity_beggs_robinson", stubs={RQ: lambda b: _Num(nf.sym("@Rs")), PBQ: lambda b: _Num(nf.sym("@pb"))}))
+    for p in vp:
+        if not p.decisions or not isinstance(p.value, _Num):
+            continue
+        v = p.value.nf
+        if p.decisions[-1][1]:
+            if set(nf.symbols(v)) - set(UP_BOX):
+                raise AnalysisError(f"viscosity_beggs_robinson: undersaturated arm depends on {sorted(set(nf.symbols(v)) - set(UP_BOX))}")
+            s0, i0 = signs.decide(v, UP_BOX, want="+", max_cells=20000)
+            ctx.check(
+                s0 == "+", "C12-g", OIL + "viscosity_beggs_robinson:positive above the bubble point", fvis.where(),
+                "the undersaturated viscosity is positive over the declared range", signature="sign", cells=i0.get("cells"), detail={k: str(x)[:100] for k, x in i0.items() if k != "cells"},
+            )
+        else:
+            if set(nf.symbols(v)) - set(OIL_BOX):
+                raise AnalysisError(f"viscosity_beggs_robinson: saturated arm depends on {sorted(set(nf.symbols(v)) - set(OIL_BOX))} besides Rs, API and T")
+            s1, i1 = signs.decide(v, OIL_BOX, want="+", max_cells=20000)
+            ctx.check(s1 == "+", "C12-g", OIL + "viscosity_beggs_robinson:positive below the bubble point", fvis.where(), "the saturated viscosity is positive over the declared range", signature="sign", cells=i1.get("cells"), detail={k: str(x)[:100] for k, x in i1.items() if k != "cells"})
+            s2, i2 = signs.decide(nf.diff(v, "@Rs"), OIL_BOX, want="-", max_cells=20000)
+            ctx.check(
+                s2 == "-", "C12-g", OIL + "viscosity_beggs_robinson:falls with dissolved gas", fvis.where(),
+                "below the bubble point d(viscosity)/d(Rs) < 0 over the declared range; with dRs/dp > 0 (C12-d) viscosity falls with pressure",
+                signature="sign of dmu/dRs", cells=i2.get("cells"), detail={k: str(x)[:100] for k, x in i2.items() if k != "cells"},
+            )
+        n_g += 1
+    ctx.floor("C12-g", n_g, 3, "ordering clauses")
